@@ -797,7 +797,7 @@ Proof.
   destruct (Rleb_spec rd (c_dzsum c)) as [Hle|Hgt].
   - intros [= <-]. cbn [a_act a_fc a_wp].
     rewrite comp_sto_cons_false; [|apply Rltb_false; lra | apply (count_zero_below (c_dzsum c)); [assumption..|lra]].
-    cbn [tr_plan]. replace (tr_plan k m rc rd 0 p (tr_sxbot k rc rd c)) with (@nil Plan) by (destruct p; reflexivity).
+    cbn [tr_plan]. replace (tr_plan k m rc rd 0 p (tr_sxbot k rc rd c)) with (@nil (@Plan R)) by (destruct p; reflexivity).
     cbn [plan_sum]. unfold rnd, g_act, g_fc, g_wp, pl_rf, pl_comp, rz_term, tr_rootfact. cbn [fst snd]. rnum.
     repeat split; lra.
   - intros H. rewrite comp_sto_cons_true by (apply Rltb_true; lra). cbn [tr_plan plan_sum].
